@@ -51,6 +51,10 @@ pub fn pool() -> Vec<Op> {
     // stamp on two different ids is something the public API really produces
     p.push(Op::ins(2, ts_min(200, 0, 1)));
     p.push(Op::del(2, ts_min(50, 0, 1)));
+    // a third id: lets one source see a late stamp of node 1 without touching keys 1 and 2,
+    // so that a bulk call on the other source can carry two entries of node 1 more than an
+    // hour apart whose fate depends on the order they are folded into the set (C02-g)
+    p.push(Op::ins(3, ts_min(205, 0, 1)));
     p
 }
 
